@@ -54,6 +54,14 @@ let handle (toks : string list) : string =
       let j = render_json r and v = render_resp r in
       let agree = (proj_json o j = Some (abs_of r)) && (proj_resp o v = Some (abs_of r)) in
       Printf.sprintf "%s %s %s" (jcanon j) (canon v) (bool_str agree)
+  | ["modes"; dflt; parsed; packets] ->
+      let om c = if c = 'j' then OJson else OResp in
+      let d = (match dflt with "j" -> Some OJson | "r" -> Some OResp | _ -> None) in
+      let ps = List.map (fun p ->
+        List.map (fun c -> match c with 'J' -> POutput OJson | 'R' -> POutput OResp | _ -> POther)
+          (List.init (String.length p) (String.get p))) (String.split_on_char '|' packets) in
+      String.concat "" (List.map (fun m -> match m with OJson -> "j" | OResp -> "r") (serve d (om parsed.[0]) None ps))
+  | ["sub_msg"; p] -> hex_of_bytes (sub_msg (bytes_of_hex p))
   | ["ws_header"; n] -> hex_of_bytes (ws_header (n_of_int (int_of_string n)))
   | ["ws_decode"; f] ->
       (match ws_decode (bytes_of_hex f) with Some p -> hex_of_bytes p | None -> "none")
